@@ -61,8 +61,10 @@ def run(chk: Check):
         chk.mc("MC_Epochs.tla", MGR_CFG.format(durhi=3, thinhi=3, maxlen=3), tag="mgr-cov",
                expect_actions=["MAppend", "MAppendRejected", "MNext", "MNextRejected"],
                what="manager: types 0..4, dur/thin -1..3, sequences <= 3 (with coverage)")
-        chk.mc("MC_Epochs.tla", MGR_CFG.format(durhi=4, thinhi=4, maxlen=4), tag="mgr-deep",
-               what="manager: types 0..4, dur/thin -1..4, sequences <= 4", timeout=3000)
+        chk.mc("MC_Epochs.tla", MGR_CFG.format(durhi=4, thinhi=4, maxlen=3), tag="mgr-wide", coverage=False,
+               what="manager: types 0..4, dur/thin -1..4, sequences <= 3", timeout=1500)
+        chk.mc("MC_Epochs.tla", MGR_CFG.format(durhi=2, thinhi=2, maxlen=5), tag="mgr-long", coverage=False,
+               what="manager: types 0..4, dur/thin -1..2, sequences <= 5", timeout=1500)
         box = dict(warm=[19, 20, 21, 25, 30, 45, 60, 75, 100, 150, 160, 320], post=[1, 4, 6, 9],
                    init=[0, 1, 5, 15, 40], term=[0, 1, 5, 10, 30], base=[1, 2, 5, 10, 25],
                    thin=[1, 2, 3, 4])
